@@ -31,7 +31,7 @@
 (* Shard/NShards split the universe over processes.                        *)
 (***************************************************************************)
 EXTENDS Sweep, Json
-CONSTANTS Mode, MinKeys, MaxKeys, MaxLen, MaxEmpty, NVals, Lists, Opts, NOps, Shard, NShards, MaxSteps
+CONSTANTS Mode, MinKeys, MaxKeys, MaxLen, MaxEmpty, NVals, Lists, Opts, NOps, Shard, NShards, MaxSteps, ShapeUnary
 VARIABLES case, out
 vars == <<case, out>>
 
@@ -118,7 +118,8 @@ InShard(n)  == (n % NShards) = Shard
 
 ---------------------------------------------------------------------------
 (* the sum expressions of a multi case: exactly the leaves lo..hi in order, inner nodes nested at most d deep; *)
-(* binary nodes are spelled "+", "combine" or "MultiSweep", unary and ternary ones "MultiSweep"                *)
+(* binary nodes are spelled "+", "combine" or "MultiSweep", unary and ternary ones "MultiSweep"; unary nodes    *)
+(* (MultiSweep(x)) only when ShapeUnary = 1                                                                    *)
 RECURSIVE SeqProd(_)             \* all sequences that pick one element from each set of a sequence of sets
 SeqProd(sets) == IF sets = <<>> THEN {<<>>} ELSE {<<x>> \o r : x \in Head(sets), r \in SeqProd(Tail(sets))}
 RECURSIVE Cuts(_, _, _)          \* lo..hi cut into m consecutive non-empty intervals <<lo_j, hi_j>>
@@ -132,7 +133,7 @@ SumExprsOn(d, lo, hi) ==
      UNION {UNION {{Node(op, ch) : op \in Spellings(m),
                                    ch \in SeqProd([j \in 1..m |-> SumExprsOn(d - 1, cut[j][1], cut[j][2])])}
                    : cut \in Cuts(lo, hi, m)}
-            : m \in 1..(IF hi - lo + 1 < 3 THEN hi - lo + 1 ELSE 3)})
+            : m \in (IF ShapeUnary = 1 THEN 1 ELSE 2)..(IF hi - lo + 1 < 3 THEN hi - lo + 1 ELSE 3)})
 SumExprs(n) == SumExprsOn(2, 1, n) \ {Leaf(1)}
 Shapes      == SumExprs(NOps)                  \* constant: evaluated once per run
 
